@@ -15,7 +15,7 @@ UNWRAP_R = "core::result::Result::<T, E>::unwrap"
 EXPECT_R = "core::result::Result::<T, E>::expect"
 PANIC = "core::panicking::panic"
 PANIC_FMT = "core::panicking::panic_fmt"
-INDEX = "core::ops::Index::index"
+INDEX = "core::ops::index::Index::index"
 
 DOCUMENTED = {
     ("sign::CoseSign::verify_signature", INDEX): "signer index `which` >= signatures.len()",
@@ -47,7 +47,7 @@ INVARIANT = {
 }
 
 BENIGN_FORWARDERS = {
-    "core::ops::FromResidual::from_residual": "forwards the caller location for `?`; does not panic",
+    "core::ops::try_trait::FromResidual::from_residual": "forwards the caller location for `?`; does not panic",
     "core::convert::Into::into": "blanket Into -> From; does not panic",
     "core::convert::From::from": "conversion; does not panic",
 }
